@@ -151,10 +151,10 @@ fn sched_property(tier: Tier, only: Option<String>) -> i32 {
         execs += r.executions;
         decisions += r.decisions;
         outcomes += r.distinct_logs;
-        exhaustive &= !r.capped && r.bound_completed == Some(bound) || !r.violations.is_empty();
+        exhaustive &= (!r.capped && r.bound_completed == Some(r.target_bound)) || !r.violations.is_empty();
         per.push(json!({"scenario": r.name, "executions": r.executions, "decisions": r.decisions,
             "max_decisions_per_execution": r.max_decisions, "executions_by_preemption_bound": r.by_bound,
-            "preemption_bound_completed": r.bound_completed, "distinct_final_outcomes": r.distinct_outcomes,
+            "preemption_bound_completed": r.bound_completed, "preemption_bound_target": r.target_bound, "distinct_final_outcomes": r.distinct_outcomes,
             "distinct_event_logs": r.distinct_logs, "sequential_reference_outcomes": r.sequential_outcomes, "capped": r.capped}));
         if let Some(s) = &r.sample {
             if samples.len() < 4 {
